@@ -95,6 +95,18 @@ func contradicts(a string, H map[string]bool) bool {
 			return true
 		}
 	}
+	// linear integer comparisons written differently: (a + b) > c, b > (c - a), c < (b + a) are one constraint
+	if key, lop, k, ok := linCanon(l, op, r); ok {
+		for h := range H {
+			hl, hop, hr, hok := splitAtom(h)
+			if !hok {
+				continue
+			}
+			if hkey, hlop, hk, ok2 := linCanon(hl, hop, hr); ok2 && hkey == key && intDisjoint(lop, k, hlop, hk) {
+				return true
+			}
+		}
+	}
 	if !isLiteral(r) {
 		return false
 	}
@@ -770,3 +782,118 @@ func (fa *Facts) predicateInfeasible(from, to *ssa.BasicBlock, H map[string]bool
 }
 
 var predDepth int
+
+// linCanon: the comparison "l op r" over sums and differences of opaque integer terms, as "key op' k": key is the
+// sign-normalised, sorted linear combination of the terms of l - r, k the constant moved to the right. ok only when a
+// side is a sum or difference (otherwise the ordinary atom comparison applies). Arithmetic is over the mathematical
+// integers: the quantities compared in the package (octet counts, lengths) are far from the int64 range.
+func linCanon(l, op, r string) (key, cop string, k int64, ok bool) {
+	switch op {
+	case "<", "<=", ">", ">=", "==", "!=":
+	default:
+		return "", "", 0, false
+	}
+	terms := map[string]int64{}
+	var konst int64
+	compound := false
+	var add func(e string, sign int64) bool
+	add = func(e string, sign int64) bool {
+		e = strings.TrimSpace(e)
+		if a, o, b, isSum := splitSum(e); isSum {
+			compound = true
+			if !add(a, sign) {
+				return false
+			}
+			if o == "-" {
+				return add(b, -sign)
+			}
+			return add(b, sign)
+		}
+		if n, err := strconv.ParseInt(e, 10, 64); err == nil {
+			konst += sign * n
+			return true
+		}
+		if e == "" || e == "nil" || e == "true" || e == "false" || e[0] == '"' {
+			return false
+		}
+		terms[e] += sign
+		return true
+	}
+	if !add(l, 1) || !add(r, -1) || !compound {
+		return "", "", 0, false
+	}
+	var names []string
+	for t, c := range terms {
+		if c != 0 {
+			names = append(names, t)
+		}
+	}
+	if len(names) == 0 {
+		return "", "", 0, false
+	}
+	sort.Strings(names)
+	flip := terms[names[0]] < 0
+	var sb strings.Builder
+	for _, t := range names {
+		c := terms[t]
+		if flip {
+			c = -c
+		}
+		fmt.Fprintf(&sb, "%+d*%s ", c, t)
+	}
+	k = -konst
+	if flip {
+		k = -k
+		switch op {
+		case "<":
+			op = ">"
+		case "<=":
+			op = ">="
+		case ">":
+			op = "<"
+		case ">=":
+			op = "<="
+		}
+	}
+	return sb.String(), op, k, true
+}
+
+// splitSum: "(A + B)" or "(A - B)" with the operator at parenthesis depth 1 (describe's form of a binary operation).
+func splitSum(e string) (a, op, b string, ok bool) {
+	if len(e) < 5 || e[0] != '(' || e[len(e)-1] != ')' {
+		return "", "", "", false
+	}
+	depth := 0
+	inStr := false
+	for i := 0; i < len(e); i++ {
+		ch := e[i]
+		if inStr {
+			if ch == '\\' {
+				i++
+			} else if ch == '"' {
+				inStr = false
+			}
+			continue
+		}
+		switch ch {
+		case '"':
+			inStr = true
+		case '(', '[', '{':
+			depth++
+		case ')', ']', '}':
+			depth--
+			if depth == 0 && i != len(e)-1 {
+				return "", "", "", false // "(A) ... (B)": the outer parentheses do not match each other
+			}
+		case ' ':
+			if depth == 1 {
+				for _, o := range []string{" + ", " - "} {
+					if strings.HasPrefix(e[i:], o) {
+						return e[1:i], strings.TrimSpace(o), e[i+3 : len(e)-1], true
+					}
+				}
+			}
+		}
+	}
+	return "", "", "", false
+}
